@@ -35,8 +35,52 @@ Theorem C30_check_exit : forall loads,
 Proof. intro l. split; [apply check_exit_zero_iff | apply check_exit_values]. Qed.
 Print Assumptions C30_check_exit.
 
+(* The per-file loop of `textx generate` (translated facts: the generator is looked up on every call by the
+   language handed in, the language is re-deduced per file unless --language/--grammar is given, --grammar
+   forces "any") is the documented one: files are processed in order up to the first one that cannot be
+   processed; exit status and generator calls are those of `doc_calls`. *)
+Theorem C30_generate_loop : forall files first info m reg given,
+  gen_files files first info m reg given = doc_calls (map (doc_call info m reg given) files).
+Proof. exact gen_files_doc. Qed.
+Print Assumptions C30_generate_loop.
+
+(* Every generator call is for a file of the command line that parses with the meta-model of its language
+   (its own language by file name, or the --language one, or the --grammar meta-model), and is made by the
+   generator registered for that very language - or by the "any" generator if that language has none and
+   was deduced from the file name -, whose declared parameters accept the given arguments. *)
+Theorem C30_generator_per_file : forall files info m reg given f gl l,
+  In (f, gl, l) (snd (gen_files files None info m reg given)) ->
+  In f files /\ exists fi decl, assoc f info = Some fi /\ doc_lang m fi = Some l /\ f_valid fi l = true /\
+     lookup reg l (is_per_file m) = Some (gl, decl) /\ validate decl given = Accept /\
+     ((gl = l /\ reg l = Some decl) \/ (is_per_file m = true /\ reg l = None /\ gl = any_lang /\ reg any_lang = Some decl)).
+Proof. exact generator_per_file_full. Qed.
+Print Assumptions C30_generator_per_file.
+
+(* exit status of generate: 0 exactly when every file can be processed (then every file got its call), else 1 *)
+Theorem C30_generate_exit : forall files info m reg given,
+  let r := gen_files files None info m reg given in
+  (fst r = 0 <-> Forall (fun f => doc_call info m reg given f <> None) files) /\ (fst r = 0 \/ fst r = 1) /\
+  (fst r = 0 -> map Some (snd r) = map (doc_call info m reg given) files).
+Proof. exact generate_exit. Qed.
+Print Assumptions C30_generate_exit.
+
+(* textx check with --language / --grammar / per-file meta-models: 0 iff every file loads, else 1 *)
+Theorem C30_check_cmd : forall m info files,
+  (check_cmd m info files = 0 <-> forall f, In f files -> file_loads m info f = true) /\
+  (check_cmd m info files = 0 \/ check_cmd m info files = 1).
+Proof. exact check_cmd_exit. Qed.
+Print Assumptions C30_check_cmd.
+
 Example C30_nonvacuous :
   custom_args [[109]; [45;45;97;45;98]; [45;45;99;45;100]; [39;120;39]]%N
   = [([97;95;98], ATrue); ([99;95;100], AStr [120])]%N.
 Proof. vm_compute. reflexivity. Qed.
 Print Assumptions C30_nonvacuous.
+
+(* two files of two languages: each is handed to the generator of its own language *)
+Example C30_nonvacuous_per_file :
+  let info := [([97]%N, {| f_lang := Some 0; f_valid := fun _ => true |}); ([98]%N, {| f_lang := Some 1; f_valid := fun _ => true |})] in
+  gen_files [[97]; [98]]%N None info PerFile (fun l => match l with 0 => Some None | 1 => Some (Some []) | _ => None end) []
+  = (0, [([97]%N, 0, 0); ([98]%N, 1, 1)]).
+Proof. vm_compute. reflexivity. Qed.
+Print Assumptions C30_nonvacuous_per_file.
